@@ -63,11 +63,16 @@ def run(ctx, pid):
         fast = [s for s in scen if s not in slow]
         scen = fast + [s for s in slow if s['procs'] == 2 and s['when'] == 'now'
                        and (s['quota'] == 0 or s['mix'] == ['apply'])][:3]
+    scale = sandbox.time_scale()
     rc, data, log = sandbox.run_driver('harness.shutdown_main', [ctx.tier, json.dumps(scen)],
-                                       timeout=3000 if thorough else 900)
+                                       timeout=(3000 if thorough else 900) * scale,
+                                       env={'VERIF_TIME_SCALE': str(scale)})
     if rc != 0 or data is None:
         raise RuntimeError('shutdown driver failed (rc=%s): %s' % (rc, log[-1500:]))
     forms = FORMULAS[pid]
+    consts = dict(CONSTS, TermTenths=str(int(100 * scale)),
+                  GuardTenths=str(min(290, int(250 * scale))))
+    ctx.note('real_time_scale', scale)
     ctx.traces += len(data)
     ctx.replay_steps += len(data)
     ctx.sample({'scenario': data[0]['scenario'], 'observed': {k: v for k, v in data[0].items() if k != 'scenario'}})
@@ -75,7 +80,7 @@ def run(ctx, pid):
     errs = [d for d in data if d.get('error')]
     if errs:
         raise RuntimeError('shutdown driver scenario error: %r' % (errs[0],))
-    _, verdicts = monitor.check('Shutdown', data, invariants=forms, constants=CONSTS)
+    _, verdicts = monitor.check('Shutdown', data, invariants=forms, constants=consts)
     seen = set()
     for v in verdicts:
         d = data[v['trace']]
@@ -87,7 +92,7 @@ def run(ctx, pid):
                       {k: d[k] for k in d if k != 'scenario'}),
                       'observed:shutdown:%s' % v['name'], replay=d)
     for tol, fs in KNOWN[pid]:
-        c2 = dict(CONSTS, **{tol: 'FALSE'})
+        c2 = dict(consts, **{tol: 'FALSE'})
         _, verdicts = monitor.check('Shutdown', data, invariants=[f for f in fs if f in forms], constants=c2)
         for v in verdicts[:1]:
             d = data[v['trace']]
